@@ -514,6 +514,24 @@ def recv_oracle(run, case, props, wf):
                               'item %d: the consumer sent requests to sources %s but not to %s, which it is still waiting for (held: %s)'
                               % (k, sorted(asked), missed, [pv[2][1][i][2] for i in missed]), summary)
                 break
+    if 'C01' in props and not cfg['balance']:
+        # a set is handed over only when EVERY synchronized source holds a complete set for the id - connected or not, whatever it
+        # said last (a source that said CLOSE is waited for like any other: its restarted publisher answers the requests still queued)
+        for k in range(1, len(case['items'])):
+            it, pv = case['items'][k], case['items'][k - 1]
+            if not any(o[0] == 'r' for o in it[1]) or pv[2] is None:
+                continue
+            for i, sc in enumerate(cfg['srcs']):
+                if sc['eph']:
+                    continue
+                held = pv[2][1][i][2]
+                if held is None or any(x[1] is None for x in held):
+                    run.violation('returned-without-source src=%d held=%s' % (i, 'nothing' if held is None else 'partial'),
+                                  'item %d: a set was handed over while synchronized source %d held %r' % (k, i, held), summary)
+                    break
+            else:
+                continue
+            break
     if props & {'C01', 'C02'}:
         # what one source's held set contains at any moment was published under one id: a set that mixes ids is handed over as it
         # is once it is complete (it may sit there for a while first)
@@ -1508,10 +1526,10 @@ def glue_cases(run):
     cases = []
     for i in range(run.n(300, 5000)):
         sync = rng.random() < 0.8
-        mq = MQ.__new__(MQ)
-        mq.mq_id = 'm'; mq.outs_jpg = None; mq.outs_metrics = False; mq.outs_filter = False; mq.metrics_cb = None
-        mq.metrics_sender = None; mq.metrics_ = DummyMetrics(); mq.mq_log = False; mq.mq_msgid_sync = sync
-        mq.send_state = None; mq.recv_state = None; mq.metrics = {}; mq._frame_id = -1
+        # (built by the real constructor - no sources, no outputs - and then given the stub sender / receiver: whatever state
+        #  the class keeps for itself is initialised the way it initialises it)
+        mq = MQ(None, None, 'm', outs_metrics=False, outs_filter=False, mq_log=False, mq_msgid_sync=sync)
+        mq.outs_jpg = None
         flt = Filter.__new__(Filter); flt.emitter = None
         script = {}
         class Snd:
